@@ -406,13 +406,13 @@ func drive(args []string) int {
 	}
 
 	cov := map[string]interface{}{
-		"evaluations":         len(all),
-		"distinct_nontrivial": len(distinct),
-		"rule":                p.Rule(),
-		"samples":             samples,
-		"verdicts":            counts,
-		"scenario_kinds":      kinds,
-		"observed":            obs,
+		"evaluations":                      len(all),
+		"distinct_nontrivial":              len(distinct),
+		"rule":                             p.Rule(),
+		"samples":                          samples,
+		"verdicts":                         counts,
+		"scenario_kinds":                   kinds,
+		"observed":                         obs,
 		"distinct_interleaving_signatures": len(sigs),
 		"inconclusive_examples":            inconcl,
 		"known_finding_hits":               knownHits,
